@@ -183,13 +183,19 @@ def proj_real(tree):
     return {'k': 'U' if len(kids) == 1 else 'B', 'cat': cat, 'lab': tree.op_string, 'sym': tree.op_symbol, 'hl': bool(tree.head_is_left), 'tok': [], 'kids': kids}
 
 
-def make_batch(rng, lang, nsent=None, nbest=None, awkward=0.4, exclude='', licensed_p=0.6, maxlen=5, sparse=False):
+# categories that only arbitrary (not grammar-licensed) English trees carry: CCGbank-style conjunction features
+EN_ARBITRARY_EXTRA = ['NP[conj]', 'N[conj]', 'N/N[conj]', 'S[dcl]\\NP[conj]', 'NP[conj]/N', '(S[dcl]\\NP[conj])/NP']
+# feature-less categories both shipped grammars combine (with different labels and head directions)
+SHARED_LEXICON = ['S', 'NP', 'S/S', 'S\\NP', '(S\\NP)\\NP', 'S\\S', 'NP/NP', '(S\\NP)/NP', 'NP\\NP', 'S/NP', '(S\\NP)/(S\\NP)']
+
+
+def make_batch(rng, lang, nsent=None, nbest=None, awkward=0.4, exclude='', licensed_p=0.6, maxlen=5, sparse=False, lexicon=None):
     """-> list (sentences) of lists (n-best) of tree dicts; all trees of one sentence share the tokens"""
     from depccg.cat import Category
     tokfn = (en_token_sparse if sparse else en_token) if lang == 'en' else ja_token
-    lexicon = EN_LEXICON if lang == 'en' else JA_LEXICON
+    lexicon = lexicon or (EN_LEXICON if lang == 'en' else JA_LEXICON)
     labels = EN_LABELS if lang == 'en' else JA_LABELS
-    catpool = [enc.parse_text(s) for s in lexicon]
+    catpool = [enc.parse_text(s) for s in lexicon + (EN_ARBITRARY_EXTRA if lang == 'en' else [])]
     nsent = nsent or rng.randint(1, 3)
     batch = []
     for s in range(nsent):
